@@ -226,6 +226,11 @@ def degenerate_atoms():
         ("malignmark", T("malignmark")),
         ("foreign", T("foo", text="q")),
         ("html-in-token", T("mtext", [T("b", text="t")])),
+        ("invisible-times", mo("\u2062")),
+        ("apply-function", mo("\u2061")),
+        ("invisible-comma", mo("\u2063")),
+        ("invisible-plus", mo("\u2064")),
+        ("invisible-mtext", mtext("\u2063")),
     ]
 
 
@@ -243,6 +248,8 @@ INSERTS = [
     ("ins-emptybase-sub", lambda: el("msub", T("mrow"), mn("1"))),
     ("ins-emptybase-subsup", lambda: el("msubsup", T("mrow"), mn("1"), mn("2"))),
     ("ins-mspace", lambda: T("mspace", width="0.5em")),
+    ("ins-invisible-times", lambda: mo("\u2062")),
+    ("ins-apply-function", lambda: mo("\u2061")),
 ]
 
 ATTRS = [
